@@ -36,7 +36,8 @@ type subObs struct {
 //	debounce:  a delivered value is a Batch value, not early (clock >= call + interval - 0.5ms), not
 //	           superseded (no later Batch for its key was called inside its interval), at most once per
 //	           subscriber; a value that is the last Batch for its key and due is delivered to every prompt
-//	           subscriber that stays subscribed (when the batcher is open)
+//	           subscriber that stays subscribed (when the batcher is open), at the loop's first wake-up at
+//	           or after call + interval
 //	sequence:  every subscriber receives in due order; two subscribers agree on the order of common
 //	           values; a staying prompt subscriber has no gap
 //	departure: nothing may be stuck at the final deadline unless `execute` is blocked on a LIVE
@@ -57,6 +58,24 @@ func monitor(c Case, o Outcome, cap int) []Problem {
 	ccalls, crets := 0, 0
 	pendingSret := []int{}
 	parks := 0
+	// The loop's timer may be late by the clock time that passes between its clock.Now() and its
+	// clock.NewTimer() (C06 late_bound). The harness lets the clock move there only while it holds the
+	// loop at queue.loop.beforeTimer: a delivery is only REQUIRED once the clock has reached
+	// due + (total advance during such holds).
+	var late, heldAt int64
+	held := false
+	for _, e := range o.Evs {
+		if e.K == "park" && e.P == "timer" {
+			held, heldAt = true, e.Now
+		}
+		if e.K == "unpark" && e.P == "timer" && held {
+			late += e.Now - heldAt
+			held = false
+		}
+	}
+	if held {
+		late += o.EndNow - heldAt
+	}
 	for i, e := range o.Evs {
 		switch e.K {
 		case "batch":
@@ -65,7 +84,7 @@ func monitor(c Case, o Outcome, cap int) []Problem {
 			order = append(order, b)
 		case "adv":
 			for _, b := range order {
-				if b.dueIdx < 0 && e.Now >= b.due {
+				if b.dueIdx < 0 && e.Now >= b.due+late {
 					b.dueIdx = i
 				}
 			}
